@@ -115,7 +115,7 @@ func SoloMain(args []string) {
 	selfDestruct(soloTimeout + 5*time.Second)
 	env := &nopEnv{}
 	res := RunJob(GenJob(seed), env, full)
-	res.Yields = env.yields
+	res.Yields = env.yields + hookPointsOutsideWorld
 	b, _ := json.Marshal(res)
 	os.Stdout.Write(b)
 }
@@ -286,7 +286,9 @@ func (e *Engine) Run(prop string, ch *kernel.Chooser, st *kernel.Stats) kernel.R
 			results[i] = RunJob(e.spec(s), &jobEnv{w: w, job: i}, true)
 		})
 	}
+	activeWorld = w
 	w.run()
+	activeWorld = nil
 	for _, n := range ids {
 		if n > 1 {
 			st.Inc("probe.same_job_twice_in_one_world")
@@ -436,7 +438,7 @@ func init() {
 		Oracles:   []string{"the same job run alone in a fresh child process (twice: two fresh processes must agree)", "intra-job invariants: repeated compilation agrees, compile leaves the tree dump unchanged, source map does not change code, debug string equals compact compilation", "token.Keywords snapshot at every context switch", "residue check: a job re-run by itself after the world finished"},
 		Assume: []string{
 			"a lexer.Builder, parser.Builder or compiler.Compiler is used by one task at a time; parsers of one builder and trees are shared between tasks",
-			"plugin-free regions of xjs have no yield point: interleavings inside them are explored only by the supplementary -race parallel leg",
+			"yield points inside xjs itself (lexer/parser NextToken, CodeWriter writes, Compile begin/end) exist only through the guarded simhook package (build tag verif); regions between them are atomic for the simulator and are covered only by the supplementary -race parallel leg",
 			"jobs whose solo run fails (hang, crash) are excluded from worlds and counted (that is C11's business, not isolation)",
 			"sampling over job sets and schedules; not exhaustive",
 		},
